@@ -126,7 +126,7 @@ deriving DecidableEq, Repr, Inhabited
 
 def currentLocalBase (s : St) : Int := s.base
 
-/-- Go's `int` has 64 bits and `+` / `-` wrap around silently (two's complement). -/
+/-- Go's `int` has 64 bits and `+` / `-` wrap around silently (two's complement): `indexToReg` (SetTop / Insert / Remove). -/
 def maxInt : Int := 9223372036854775807
 
 def wrapInt (x : Int) : Int := (x + 9223372036854775808) % 18446744073709551616 - 9223372036854775808
@@ -149,7 +149,37 @@ def setTop (s : St) (idx : Int) : Except Err St := do
 
 def pseudo : Err := .luaError "pseudo-index: not modelled"
 
+/-- `Replace` — the positive branch compares BEFORE adding (`if idx <= ls.reg.Top()-base { reg.Set(base+idx-1, v) }`):
+    `Top()-base` and, under the test, `base+idx-1 < Top()` are in the range of a Go `int`, nothing wraps
+    (repair of C10-index-int-overflow; the code before the repair is `replaceOld`). -/
 def replace (s : St) (idx : Int) (value : OVal) : Except Err St :=
+  let base := currentLocalBase s
+  if idx > 0 then
+    if idx ≤ (s.reg.top : Int) - base then do
+      let r ← regSet s.reg (base + idx - 1) (.val value); .ok { s with reg := r }
+    else .ok s
+  else if idx = 0 then .ok s
+  else if idx > Generated.RegistryIndex then
+    let tidx := (s.reg.top : Int) + idx
+    if tidx ≥ base then do let r ← regSet s.reg tidx (.val value); .ok { s with reg := r }
+    else .ok s
+  else .error pseudo
+
+/-- `Get` — same comparison before the addition (`if idx <= ls.reg.Top()-base { return reg.Get(base+idx-1) }`). -/
+def get (s : St) (idx : Int) : Except Err Slot :=
+  let base := currentLocalBase s
+  if idx > 0 then
+    if idx ≤ (s.reg.top : Int) - base then regGet s.reg (base + idx - 1) else .ok (.val none)
+  else if idx = 0 then .ok (.val none)
+  else if idx > Generated.RegistryIndex then
+    let tidx := (s.reg.top : Int) + idx
+    if tidx < base then .ok (.val none) else regGet s.reg tidx
+  else .error pseudo
+
+/-- `Replace` / `Get` as they were BEFORE the repair of C10-index-int-overflow: `reg := base + idx - 1` on Go ints
+    (wrapping), then `if reg < ls.reg.Top()`.  Kept so that the negation of the full statement stays machine-checked
+    (Props/C10 `get_never_panics_before_fix_fails`). -/
+def replaceOld (s : St) (idx : Int) (value : OVal) : Except Err St :=
   let base := currentLocalBase s
   if idx > 0 then
     let reg := wrapInt (base + idx - 1)      -- `reg := base + idx - 1` on Go ints
@@ -162,7 +192,7 @@ def replace (s : St) (idx : Int) (value : OVal) : Except Err St :=
     else .ok s
   else .error pseudo
 
-def get (s : St) (idx : Int) : Except Err Slot :=
+def getOld (s : St) (idx : Int) : Except Err Slot :=
   let base := currentLocalBase s
   if idx > 0 then
     let reg := wrapInt (base + idx - 1)      -- `reg := base + idx - 1` on Go ints
@@ -195,7 +225,24 @@ def insertLoop (r : Reg) (reg : Nat) : (k : Nat) → Except Err Reg
     let r ← regSet r ((reg + k + 1 : Nat) : Int) v
     insertLoop r reg k
 
+/-- `Insert` — in the `reg >= top` branch `ls.reg.SetTop(reg)` first (the skipped slots top..reg-1 become LNil; a no-op
+    for reg = top), then `ls.reg.Set(reg, value)` (repair of C10-insert-beyond-top-gap; before: `insertOld`). -/
 def insert (s : St) (value : OVal) (index : Int) : Except Err St := do
+  let reg := indexToReg s index
+  let top := s.reg.top
+  if reg ≥ top then
+    let r ← regSetTop s.reg reg
+    let r ← regSet r reg (.val value)
+    .ok { s with reg := r }
+  else
+    let reg := if reg ≤ currentLocalBase s then currentLocalBase s else reg
+    let r ← insertLoop s.reg reg.toNat (top - reg.toNat)
+    let r ← regSet r reg (.val value)
+    .ok { s with reg := r }
+
+/-- `Insert` as it was BEFORE the repair of C10-insert-beyond-top-gap: `if reg >= top { ls.reg.Set(reg, value); return }`
+    (Props/C10 `insert_keeps_wf_before_fix_fails`). -/
+def insertOld (s : St) (value : OVal) (index : Int) : Except Err St := do
   let reg := indexToReg s index
   let top := s.reg.top
   if reg ≥ top then
@@ -343,14 +390,17 @@ def callHandler (s : St) (fn : OVal) (args : List OVal) (kind : Callee) (body : 
   let (x, r) ← regPop s.reg
   .ok ({ s with reg := r }, x)
 
-/-- `Concat(values...)`: `top := reg.Top()`, the pushes, whatever `stringConcat` does (`inner`: reads and handler
-    calls), `reg.SetTop(top)`. -/
-def concatFrame (s : St) (values : List OVal) (inner : St → Except Err St) : Except Err St := do
-  let top := s.reg.top
-  let s1 ← run s (values.map .push)
-  let s2 ← inner s1
-  let r ← regSetTop s2.reg top
-  .ok { s2 with reg := r }
+/-- `Concat(values...)`: `if len(values) == 0 { return "" }` (the registry is not touched: repair of
+    C10-concat-no-operand); otherwise `top := reg.Top()`, the pushes, whatever `stringConcat` does (`inner`: reads and
+    handler calls), `reg.SetTop(top)`. -/
+def concatFrame (s : St) (values : List OVal) (inner : St → Except Err St) : Except Err St :=
+  if values.isEmpty then .ok s
+  else do
+    let top := s.reg.top
+    let s1 ← run s (values.map .push)
+    let s2 ← inner s1
+    let r ← regSetTop s2.reg top
+    .ok { s2 with reg := r }
 
 /-- the recovery path of `PCall`: whatever the failed callee left in the registry above `base`,
     `ls.reg.SetTop(base)` with `base := Top()-nargs-1` computed before the call. -/
@@ -504,6 +554,11 @@ deriving DecidableEq, Repr
 
 def lget (l : LSt) (idx : Int) : Except Err Slot :=
   if idx > 0 ∨ idx = 0 ∨ idx > Generated.RegistryIndex then get l.st idx
+  else (getPseudo l.p idx).map Slot.val
+
+/-- `Get` as a whole before the repair of C10-index-int-overflow. -/
+def lgetOld (l : LSt) (idx : Int) : Except Err Slot :=
+  if idx > 0 ∨ idx = 0 ∨ idx > Generated.RegistryIndex then getOld l.st idx
   else (getPseudo l.p idx).map Slot.val
 
 def lreplace (l : LSt) (idx : Int) (value : OVal) (isTable : Bool) : Except Err LSt :=
